@@ -2022,6 +2022,59 @@ pub fn run(out: &mut Out, seed: u64, thorough: bool, replay: Option<&str>) {
         d.out.mark_distinct(fnv(format!("C4{first}").as_bytes()));
         d.s.shutdown();
     }
+    // ---- C5 (C02): two lookups of the same kind for DIFFERENT targets run side by side and their answers
+    //          arrive back to back: each caller is handed only what belongs to its own target
+    for kind in 0..3 {
+        t0 += 10_000_000_000_000;
+        let mut net = VNet::new(&mut rng, 6, true);
+        let ih1 = Id::from_bytes(rng.id20()).expect("id");
+        let ih2 = Id::from_bytes(rng.id20()).expect("id");
+        let sa1 = SignedAnnounce::new(&key_from_seed(31), &ih1);
+        let sa2 = SignedAnnounce::new(&key_from_seed(32), &ih2);
+        let it1 = MutableItem::new(&key_from_seed(9), b"of key nine", 2, None);
+        let it2 = MutableItem::new(&key_from_seed(10), b"of key ten", 2, None);
+        for (j, p) in net.peers.iter_mut().enumerate() {
+            p.peers.insert(ih1, vec![SocketAddrV4::new(Ipv4Addr::new(10, 8, 8, 1), 7001)]);
+            p.peers.insert(ih2, vec![SocketAddrV4::new(Ipv4Addr::new(10, 8, 8, 2), 7002)]);
+            p.speers.insert(ih1, vec![(*sa1.key(), sa1.timestamp(), *sa1.signature())]);
+            p.speers.insert(ih2, vec![(*sa2.key(), sa2.timestamp(), *sa2.signature())]);
+            p.muts.insert(*it1.target(), (it1.value().to_vec(), *it1.key(), it1.seq(), *it1.signature()));
+            p.muts.insert(*it2.target(), (it2.value().to_vec(), *it2.key(), it2.seq(), *it2.signature()));
+            // the second call is picked up one network latency after the first: with this delay the late
+            // half of the first lookup's answers falls due together with the early half of the second's
+            p.extra_delay = (j as u64 % 2) * 5 * MS;
+        }
+        let boot = vec![net.peers[0].addr];
+        let mut d = Driver::new(out, rng.next(), net);
+        d.begin("c", &boot, None, rng.next() % 1_000_000 + 1, t0);
+        d.run_for(2 * SEC, 10 * MS);
+        let (call1, call2, want1, want2) = match kind {
+            0 => (format!("get_speers ih={}", hex(ih1.as_bytes())), format!("get_speers ih={}", hex(ih2.as_bytes())), hex(sa1.signature()), hex(sa2.signature())),
+            1 => (format!("get_peers ih={}", hex(ih1.as_bytes())), format!("get_peers ih={}", hex(ih2.as_bytes())), "168298497:7001".to_string(), "168298498:7002".to_string()),
+            _ => (
+                format!("get_mut k={} salt=none seq=none", hex(key_from_seed(9).verifying_key().as_bytes())),
+                format!("get_mut k={} salt=none seq=none", hex(key_from_seed(10).verifying_key().as_bytes())),
+                hex(it1.signature()),
+                hex(it2.signature()),
+            ),
+        };
+        let c1 = d.api(call1);
+        let c2 = d.api(call2);
+        d.settle(20 * SEC, 10 * MS);
+        for (c, mine, other) in [(c1, &want1, &want2), (c2, &want2, &want1)] {
+            let got = d.results(c);
+            if got.iter().any(|r| r.contains(other.as_str())) {
+                d.out.violation("C02", "inauthentic-value", format!("a lookup was handed what belongs to the target of the lookup running beside it: {:?}", got.iter().filter(|r| r.contains(other.as_str())).take(1).collect::<Vec<_>>()));
+            }
+            if !got.iter().any(|r| r.contains(mine.as_str())) {
+                d.out.violation("C01", "stored-item-not-yielded", format!("one of two lookups running side by side yielded {:?} although every node holds its value", got.iter().take(2).collect::<Vec<_>>()));
+            }
+        }
+        d.finish();
+        d.out.mark_distinct(fnv(format!("C5{kind}").as_bytes()));
+        d.out.count("side-by-side-lookups");
+        d.s.shutdown();
+    }
     // ---- M2: a second reader joins a lookup that has already been handed the value, while the lookup is
     //          kept running by a node that never answers (C01): it is handed the value too
     for kind in 0..4 {
